@@ -56,6 +56,9 @@ def parseEv : List String → Option Ev
   | ["wt", k, rows] => do let k ← nat? k; let r ← parseRows rows; pure (.writeT false k r)
   | ["wd", k, rows] => do let k ← nat? k; let r ← parseRows rows; pure (.writeT true k r)
   | ["stall"] => some .stall
+  | ["late"] => some (.mode none)   -- storage write succeeds but only returns after the flush deadline: still a success
+  | ["tickf", n] => (nat? n).map .tickF
+  | ["restartf", n] => (nat? n).map .restartF
   | ["wpause"] => some .wpause
   | ["wresume"] => some .wresume
   | ["hold"] => some .hold
